@@ -17,8 +17,15 @@ SPEC = {
              "with QR set, same VLAN id; TTL, IP id, TCP numbers, UDP payload, DNS answer differ), serialized, self-checked against the RFC "
              "offsets. Oracle on every request: matches_response(mirror) = true; for every byte of every matched field (link and network "
              "reply source/destination, VLAN id bits, transport ports, ICMP/ICMPv6 reply type, identifier, sequence, DNS id) and each of "
-             "the 255 other values (for the VLAN id: each value that changes the 12 id bits) matches_response = false; reply-source "
-             "negatives are skipped when the request destination of that layer is broadcast/multicast; for IPv4 requests additionally 144 "
+             "the 255 other values (for the VLAN id: each value that changes the 12 id bits) matches_response = false, EXCEPT reply-source "
+             "fields of a layer whose request destination class is exempt in the explicit reference table (link: I/G-bit group addresses incl. "
+             "broadcast; IPv4: 255.255.255.255 only, plus reply destination for source 0.0.0.0 -> 255.255.255.255; IPv6: ff02::/16 only) where "
+             "every one of those perturbations must be ACCEPTED (match:exempt-class-reply-rejected otherwise) -- both directions are judged, so a "
+             "class joining or leaving the exempt set is reported; request address classes enumerated: MAC {unicast, fe:ff.., broadcast, 01:00:5e.., "
+             "33:33.., 01:80:c2.., 03:..}, IPv4 destinations {unicast, x.y.z.255, 255.255.255.0, 223.255.255.255, 224.0.0.0, 224.0.0.1, "
+             "239.255.255.255, 240.0.0.1, 255.255.255.254, 255.255.255.255, 127.0.0.1, 0.0.0.0} and source 0.0.0.0 (under link layers), IPv6 "
+             "destinations {global, fe80::1, fe02::, feff::1, fec0::1, ::1, ::, ff00::, ff01::1, ff02::, ff02::1, ff02::1:ff00:1, ff02:ffff..ffff, ff03::1, "
+             "ff05::2, ff0e::1, ff0f::1, ff12::1} and source ::; for IPv4 requests additionally 144 "
              "ICMP errors (types 3/11/12) whose outer source AND destination differ from the mirror and whose quoted header differs from "
              "the request's must not match. All buffers are exact-size malloc blocks. "
              "SAFETY: every concrete PDU class (50 default-constructible classes incl. all Dot11 frames and PKTAP, each as default object and "
@@ -56,7 +63,7 @@ SPEC = {
                     "a reply to a request with IPv4 options / IPv6 extension headers carries options / headers of the same total length",
                     "the verdict is a function of (request, reply bytes) only: it may not depend on earlier calls in the process",
                     "matched fields are those named by the statement: link/network addresses, ports, ICMP reply type/id/sequence, DNS id, VLAN id",
-                    "the reply source is not determined by the mirror relation when the request destination is broadcast/multicast",
+                    "which request destination classes leave the reply source open is fixed by the reference table in the harness (documented libtins semantics: I/G-bit MACs, 255.255.255.255, ff02::/16); all other classes, incl. IPv4 multicast and non-ff02 IPv6 multicast, are compared literally",
                     "ICMP errors quoting the request verbatim are outside the property (neither required nor forbidden to match)",
                     "sanitizers: ASan+UBSan (alignment check off)"],
 }
